@@ -114,6 +114,9 @@ pub fn run(scn: &Scenario, record: bool) -> RunResult {
             g.dirs[1 - ep].rmax = if scn.io.rmax[ep] == 0 { usize::MAX } else { scn.io.rmax[ep] };
             g.dirs[ep].vectored = scn.io.vectored[ep];
         }
+        // the reader-side frame splitters know the endpoint's own frame size limit (frames beyond it are reported at their header)
+        g.dirs[1].in_dec.split.max_len = scn.ccfg.max_frame.unwrap_or(16384) as usize;
+        g.dirs[0].in_dec.split.max_len = scn.scfg.max_frame.unwrap_or(16384) as usize;
         let ps = &scn.peer_cfg.settings;
         let pget = |k: u16, d: i64| ps.iter().rev().find(|(kk, _)| *kk == k).map(|(_, v)| (*v as i64).min(0x7fff_ffff)).unwrap_or(d);
         g.log(json!({"t": "cfg", "name": scn.name, "mode": mode, "real": {"c": real[0], "s": real[1]},
